@@ -242,7 +242,7 @@ package types
 //@   ensures  wfVoteSet(voteSet)
 //@   ensures  majInv(voteSet)
 //@   loop 0 invariant 0 <= $i && $i <= len(votesByBlock.votes) && votesByBlock != nil && len(voteSet.votes) == len(votesByBlock.votes)
-//@   loop 0 invariant forall(j, 0, $i, votesByBlock.votes[j] != nil ==> voteSet.votes[j] == votesByBlock.votes[j])
+//@   loop 0 invariant forall(j, 0, $i, trigger(votesByBlock.votes[j]), votesByBlock.votes[j] != nil ==> voteSet.votes[j] == votesByBlock.votes[j])
 
 //@ define addrAt(vs *ValidatorSet, i Int) Bytes = vs.Validators[i].Address
 //@ define pubKeyAt(vs *ValidatorSet, i Int) Iface = vs.Validators[i].PubKey
